@@ -32,7 +32,12 @@ def observe_expr(rid, text=None, terms=None):
     row = {"id": rid, "kind": "expr", "form": "text" if terms is None else "list",
            "text": chars(text or ""), "terms": [chars(t) for t in (terms or [])],
            "err": False, "tt": [], "printed": [], "printed_err": False, "printed_tt": [],
-           "pretty": [], "pretty_err": False, "pretty_tt": [], "exc": ""}
+           "pretty": [], "pretty_err": False, "pretty_tt": [], "exc": "", "auto_err": False, "auto_tt": []}
+    # the same input under the protocol users get by default (dialect auto-detection): a new-style expression keeps its meaning
+    try:
+        row["auto_tt"] = truth_table(make_tag_expression(text if terms is None else list(terms), TagExpressionProtocol.AUTO_DETECT))
+    except Exception:
+        row["auto_err"] = True
     try:
         e = make_tag_expression(text if terms is None else list(terms), TagExpressionProtocol.V2)
         row["tt"] = truth_table(e)
@@ -84,6 +89,8 @@ def variants(case, rnd, tier):
     out.append(("text", mn.replace("(", "( ").replace(")", " )")))          # blanks inside parentheses
     out.append(("list", [mn]))
     out.append(("list", [full, "@" + "a", at]))                             # a term list: conjunction
+    out.append(("list", [mn, "a*"]))                                        # plain wildcard / literal terms next to the rendering
+    out.append(("list", ["@?b", mn, "zb"]))
     leafy = "".join(case["leafy"])
     out.append(("text", leafy))                                             # every operand in its own parentheses
     out.append(("list", [leafy, "(b) or (?b)"]))                            # terms that start with "(" and end with ")" without being one group
